@@ -100,7 +100,8 @@ func routeScenario(v6 bool, xids, ths []byte, evs [][]byte) []callOutcome {
 					hw = net.HardwareAddr{2, 0, 0, 0, 0, 9}
 				}
 				if kind == 2 {
-					op = dhcpv4.OpcodeBootRequest
+					// anything but BOOTREPLY: the decoder accepts every op value
+					op = []dhcpv4.OpcodeType{dhcpv4.OpcodeBootRequest, 0, 3, 0x82, 0xff}[int(p+x)%5]
 				}
 				m, _ := dhcpv4.New(dhcpv4.WithTransactionID(dhcpv4.TransactionID{0, 0, 0, x}), dhcpv4.WithHwAddr(hw),
 					dhcpv4.WithMessageType(dhcpv4.MessageTypeOffer), dhcpv4.WithGeneric(dhcpv4.GenericOptionCode(224), []byte{p}))
